@@ -232,3 +232,380 @@ pub fn name_change(original: &str) -> String {
 pub fn hostname_change(original: &str) -> String {
     crate::service_daemon::verif_access::hostname_change(original)
 }
+
+// =========================================================================================
+// Simulated world for the daemon thread (virtual clock above, plus: interface table,
+// captured egress, injected ingress, a per-iteration gate in the run loop, seeded jitter).
+//
+// A harness registers a simulated daemon under a port number *before* calling
+// `ServiceDaemon::new_with_port(port)`. The daemon thread attaches to it (thread-local), and
+// from then on, on that thread only:
+//   * `PktInfoUdpSocket` (aliased to `SimPktInfoUdpSocket` in service_daemon.rs) does not
+//     bind, join or leave groups; `send_to` is captured; `recv` pops injected datagrams;
+//   * `my_ip_interfaces_inner` reads the simulated interface table;
+//   * the run loop blocks at the gate once per iteration instead of waiting in `poll`.
+// Threads that are not attached (the default) get the real behaviour.
+// =========================================================================================
+
+use if_addrs::Interface;
+use socket2::{Domain, SockAddr};
+use socket_pktinfo::PktInfo;
+use std::cell::RefCell;
+use std::collections::{HashMap, VecDeque};
+use std::io;
+use std::net::{Ipv4Addr, Ipv6Addr, SocketAddr};
+use std::sync::{Arc, Condvar, Mutex};
+
+/// One datagram sent by the daemon.
+#[derive(Debug, Clone)]
+pub struct Egress {
+    pub now: u64,
+    pub is_ipv4: bool,
+    /// Interface chosen by the preceding `set_multicast_if_v4` (address) / `_v6` (index).
+    pub out_if_v4: Option<Ipv4Addr>,
+    pub out_if_v6: Option<u32>,
+    pub dest: Option<SocketAddr>,
+    pub data: Vec<u8>,
+}
+
+/// One datagram to be received by the daemon.
+#[derive(Debug, Clone)]
+pub struct Ingress {
+    pub is_ipv4: bool,
+    pub if_index: u32,
+    pub src: SocketAddr,
+    pub data: Vec<u8>,
+}
+
+#[derive(Default)]
+struct GateState {
+    /// The daemon is blocked at the gate.
+    waiting: bool,
+    /// Number of iterations the daemon may still start.
+    permits: u64,
+    /// Iterations completed (gate arrivals).
+    arrivals: u64,
+    /// Earliest timer the daemon saw when it arrived (absolute virtual ms), if any.
+    requested_wake: Option<u64>,
+    /// Virtual time at which the daemon arrived at the gate.
+    arrived_at: u64,
+    exited: bool,
+    panicked: bool,
+}
+
+pub struct SimDaemon {
+    gate: Mutex<GateState>,
+    cv: Condvar,
+    interfaces: Mutex<Vec<Interface>>,
+    ingress_v4: Mutex<VecDeque<Ingress>>,
+    ingress_v6: Mutex<VecDeque<Ingress>>,
+    egress: Mutex<Vec<Egress>>,
+    jitters: Mutex<Vec<u64>>,
+    jitter_seed: u64,
+}
+
+static SIMS: Mutex<Option<HashMap<u16, Arc<SimDaemon>>>> = Mutex::new(None);
+
+thread_local! {
+    static ATTACHED: RefCell<Option<Arc<SimDaemon>>> = const { RefCell::new(None) };
+}
+
+fn attached() -> Option<Arc<SimDaemon>> {
+    ATTACHED.with(|a| a.borrow().clone())
+}
+
+/// Registers a simulated daemon for `port`. Call before `ServiceDaemon::new_with_port(port)`.
+pub fn sim_register(port: u16, interfaces: Vec<Interface>, jitter_seed: u64) -> Arc<SimDaemon> {
+    let d = Arc::new(SimDaemon {
+        gate: Mutex::new(GateState::default()),
+        cv: Condvar::new(),
+        interfaces: Mutex::new(interfaces),
+        ingress_v4: Mutex::new(VecDeque::new()),
+        ingress_v6: Mutex::new(VecDeque::new()),
+        egress: Mutex::new(Vec::new()),
+        jitters: Mutex::new(Vec::new()),
+        jitter_seed,
+    });
+    let mut g = SIMS.lock().unwrap();
+    g.get_or_insert_with(HashMap::new).insert(port, d.clone());
+    d
+}
+
+pub fn sim_unregister(port: u16) {
+    if let Some(m) = SIMS.lock().unwrap().as_mut() {
+        m.remove(&port);
+    }
+}
+
+/// Dropped when the daemon thread ends (normally or by panic).
+pub struct SimGuard(Option<Arc<SimDaemon>>);
+
+impl Drop for SimGuard {
+    fn drop(&mut self) {
+        if let Some(d) = self.0.take() {
+            let mut g = d.gate.lock().unwrap_or_else(|e| e.into_inner());
+            g.exited = true;
+            g.panicked = std::thread::panicking();
+            d.cv.notify_all();
+            ATTACHED.with(|a| *a.borrow_mut() = None);
+        }
+    }
+}
+
+/// Called at the start of the daemon thread.
+pub(crate) fn sim_attach(port: u16) -> SimGuard {
+    let d = SIMS
+        .lock()
+        .unwrap()
+        .as_ref()
+        .and_then(|m| m.get(&port).cloned());
+    if let Some(d) = &d {
+        ATTACHED.with(|a| *a.borrow_mut() = Some(d.clone()));
+        fastrand::seed(d.jitter_seed);
+    }
+    SimGuard(d)
+}
+
+pub(crate) fn sim_active() -> bool {
+    ATTACHED.with(|a| a.borrow().is_some())
+}
+
+/// The run loop arrives here once per iteration, instead of sleeping in `poll`.
+pub(crate) fn sim_gate(earliest_timer: Option<u64>, now: u64) {
+    let Some(d) = attached() else { return };
+    let mut g = d.gate.lock().unwrap();
+    g.requested_wake = earliest_timer;
+    g.arrived_at = now;
+    g.arrivals += 1;
+    g.waiting = true;
+    d.cv.notify_all();
+    while g.permits == 0 {
+        g = d.cv.wait(g).unwrap();
+    }
+    g.permits -= 1;
+    g.waiting = false;
+}
+
+/// Simulated OS interface table, filtered like `my_ip_interfaces_inner` filters the real one.
+pub(crate) fn sim_interfaces(with_loopback: bool, with_apple_p2p: bool) -> Option<Vec<Interface>> {
+    let d = attached()?;
+    let v = d.interfaces.lock().unwrap().clone();
+    Some(
+        v.into_iter()
+            .filter(|i| {
+                i.is_oper_up()
+                    && !i.is_p2p()
+                    && (!i.is_loopback() || with_loopback)
+                    && (with_apple_p2p || !(i.name.starts_with("awdl") || i.name.starts_with("llw")))
+            })
+            .collect(),
+    )
+}
+
+/// Records the probe start jitter the daemon drew (`fastrand`, seeded per simulated daemon).
+pub(crate) fn sim_note_jitter(create_time: u64, now: u64) {
+    if let Some(d) = attached() {
+        d.jitters.lock().unwrap().push(create_time.wrapping_sub(now));
+    }
+}
+
+/// What the harness learns when the daemon is back at the gate.
+#[derive(Debug, Clone)]
+pub struct GateReport {
+    pub arrivals: u64,
+    pub requested_wake: Option<u64>,
+    pub arrived_at: u64,
+    pub exited: bool,
+    pub panicked: bool,
+}
+
+impl SimDaemon {
+    /// Blocks until the daemon thread is waiting at the gate (or has ended).
+    /// Returns None on timeout (wall clock): the daemon thread is stuck inside an iteration.
+    pub fn wait_at_gate(&self, wall_timeout_ms: u64) -> Option<GateReport> {
+        let mut g = self.gate.lock().unwrap_or_else(|e| e.into_inner());
+        let deadline = std::time::Instant::now() + std::time::Duration::from_millis(wall_timeout_ms);
+        while !(g.waiting && g.permits == 0) && !g.exited {
+            let left = deadline.checked_duration_since(std::time::Instant::now())?;
+            let (g2, _) = self.cv.wait_timeout(g, left).unwrap_or_else(|e| e.into_inner());
+            g = g2;
+        }
+        Some(GateReport {
+            arrivals: g.arrivals,
+            requested_wake: g.requested_wake,
+            arrived_at: g.arrived_at,
+            exited: g.exited,
+            panicked: g.panicked,
+        })
+    }
+
+    /// Lets the daemon run one iteration.
+    pub fn release(&self) {
+        let mut g = self.gate.lock().unwrap_or_else(|e| e.into_inner());
+        g.permits += 1;
+        g.waiting = false;
+        self.cv.notify_all();
+    }
+
+    pub fn inject(&self, dg: Ingress) {
+        if dg.is_ipv4 {
+            self.ingress_v4.lock().unwrap().push_back(dg);
+        } else {
+            self.ingress_v6.lock().unwrap().push_back(dg);
+        }
+    }
+
+    pub fn take_egress(&self) -> Vec<Egress> {
+        std::mem::take(&mut *self.egress.lock().unwrap())
+    }
+
+    pub fn take_jitters(&self) -> Vec<u64> {
+        std::mem::take(&mut *self.jitters.lock().unwrap())
+    }
+
+    pub fn set_interfaces(&self, v: Vec<Interface>) {
+        *self.interfaces.lock().unwrap() = v;
+    }
+}
+
+/// Stand-in for `socket_pktinfo::PktInfoUdpSocket` in service_daemon.rs. Wraps a real socket;
+/// on a thread attached to a simulated daemon the network-facing calls are simulated.
+pub(crate) struct SimPktInfoUdpSocket {
+    real: socket_pktinfo::PktInfoUdpSocket,
+    domain: Domain,
+    if_v4: Mutex<Option<Ipv4Addr>>,
+    if_v6: Mutex<Option<u32>>,
+}
+
+impl SimPktInfoUdpSocket {
+    pub fn new(domain: Domain) -> io::Result<Self> {
+        Ok(Self {
+            real: socket_pktinfo::PktInfoUdpSocket::new(domain)?,
+            domain,
+            if_v4: Mutex::new(None),
+            if_v6: Mutex::new(None),
+        })
+    }
+    pub fn domain(&self) -> Domain {
+        self.real.domain()
+    }
+    pub fn set_reuse_address(&self, reuse: bool) -> io::Result<()> {
+        self.real.set_reuse_address(reuse)
+    }
+    #[cfg(unix)]
+    pub fn set_reuse_port(&self, reuse: bool) -> io::Result<()> {
+        self.real.set_reuse_port(reuse)
+    }
+    pub fn set_nonblocking(&self, v: bool) -> io::Result<()> {
+        self.real.set_nonblocking(v)
+    }
+    pub fn try_clone_std(&self) -> io::Result<std::net::UdpSocket> {
+        self.real.try_clone_std()
+    }
+    pub fn set_multicast_ttl_v4(&self, ttl: u32) -> io::Result<()> {
+        self.real.set_multicast_ttl_v4(ttl)
+    }
+    pub fn set_multicast_hops_v6(&self, hops: u32) -> io::Result<()> {
+        self.real.set_multicast_hops_v6(hops)
+    }
+    pub fn bind(&self, addr: &SockAddr) -> io::Result<()> {
+        if sim_active() {
+            return Ok(());
+        }
+        self.real.bind(addr)
+    }
+    pub fn join_multicast_v4(&self, addr: &Ipv4Addr, interface: &Ipv4Addr) -> io::Result<()> {
+        if sim_active() {
+            return Ok(());
+        }
+        self.real.join_multicast_v4(addr, interface)
+    }
+    pub fn leave_multicast_v4(&self, addr: &Ipv4Addr, interface: &Ipv4Addr) -> io::Result<()> {
+        if sim_active() {
+            return Ok(());
+        }
+        self.real.leave_multicast_v4(addr, interface)
+    }
+    pub fn join_multicast_v6(&self, addr: &Ipv6Addr, interface: u32) -> io::Result<()> {
+        if sim_active() {
+            return Ok(());
+        }
+        self.real.join_multicast_v6(addr, interface)
+    }
+    pub fn leave_multicast_v6(&self, addr: &Ipv6Addr, interface: u32) -> io::Result<()> {
+        if sim_active() {
+            return Ok(());
+        }
+        self.real.leave_multicast_v6(addr, interface)
+    }
+    pub fn set_multicast_if_v4(&self, interface: &Ipv4Addr) -> io::Result<()> {
+        if sim_active() {
+            *self.if_v4.lock().unwrap() = Some(*interface);
+            return Ok(());
+        }
+        self.real.set_multicast_if_v4(interface)
+    }
+    pub fn set_multicast_if_v6(&self, interface: u32) -> io::Result<()> {
+        if sim_active() {
+            *self.if_v6.lock().unwrap() = Some(interface);
+            return Ok(());
+        }
+        self.real.set_multicast_if_v6(interface)
+    }
+    pub fn set_multicast_loop_v4(&self, on: bool) -> io::Result<()> {
+        if sim_active() {
+            return Ok(());
+        }
+        self.real.set_multicast_loop_v4(on)
+    }
+    pub fn set_multicast_loop_v6(&self, on: bool) -> io::Result<()> {
+        if sim_active() {
+            return Ok(());
+        }
+        self.real.set_multicast_loop_v6(on)
+    }
+    pub fn send_to(&self, buf: &[u8], addr: &SockAddr) -> io::Result<usize> {
+        if let Some(d) = attached() {
+            let is_ipv4 = self.domain == Domain::IPV4;
+            d.egress.lock().unwrap().push(Egress {
+                now: virtual_now().unwrap_or(0),
+                is_ipv4,
+                out_if_v4: *self.if_v4.lock().unwrap(),
+                out_if_v6: *self.if_v6.lock().unwrap(),
+                dest: addr.as_socket(),
+                data: buf.to_vec(),
+            });
+            return Ok(buf.len());
+        }
+        self.real.send_to(buf, addr)
+    }
+    pub fn recv(&self, buf: &mut [u8]) -> io::Result<(usize, PktInfo)> {
+        if let Some(d) = attached() {
+            let q = if self.domain == Domain::IPV4 {
+                &d.ingress_v4
+            } else {
+                &d.ingress_v6
+            };
+            let Some(dg) = q.lock().unwrap().pop_front() else {
+                return Err(io::Error::from(io::ErrorKind::WouldBlock));
+            };
+            // like recvmsg: a datagram longer than the buffer is cut to the buffer size
+            let n = dg.data.len().min(buf.len());
+            buf[..n].copy_from_slice(&dg.data[..n]);
+            let dst = if dg.is_ipv4 {
+                IpAddr::V4(Ipv4Addr::new(224, 0, 0, 251))
+            } else {
+                IpAddr::V6(Ipv6Addr::new(0xff02, 0, 0, 0, 0, 0, 0, 0xfb))
+            };
+            return Ok((
+                n,
+                PktInfo {
+                    if_index: dg.if_index as u64,
+                    addr_src: dg.src,
+                    addr_dst: dst,
+                },
+            ));
+        }
+        self.real.recv(buf)
+    }
+}
